@@ -97,7 +97,7 @@ func (fd *zzFed) check(gk []zzKey, gv []int64, what string, ascending bool) {
 // Compact returns exactly those rows and leaves the table empty — for every
 // hash collision pattern, probe wrap-around and growth point.
 func zzH_C09_table() { zzTableHarness(4, 2, 2) }
-func zzH_C09_table_deep() { zzTableHarness(4, 2, 3) }
+func zzH_C09_table_deep() { zzTableHarness(2, 1, 3) }
 func zzH_C09_table_cap2() { zzTableHarness(2, 1, 2) }
 
 func zzTableHarness(initCap, scratch, rows int) {
@@ -185,10 +185,10 @@ func zzStubCCleanup(dir sliceio.Spiller) error { zzCCleaned++; return nil }
 // zzH_C09_combiner: feeding frames into a combiner with a spill threshold and
 // reading it back yields one row per distinct key in ascending key order with
 // the folded value, across any number of spills; temporary files are removed.
-func zzH_C09_combiner() { zzCombinerHarness(2) }
-func zzH_C09_combiner_deep() { zzCombinerHarness(3) }
+func zzH_C09_combiner() { zzCombinerHarness(2, 2) }
+func zzH_C09_combiner_deep() { zzCombinerHarness(4, 1) }
 
-func zzCombinerHarness(batches int) {
+func zzCombinerHarness(batches, maxRows int) {
 	zzRegisterKey()
 	zzConstHash = true
 	defer func() { zzConstHash = false }()
@@ -202,7 +202,7 @@ func zzCombinerHarness(batches int) {
 	fd := &zzFed{}
 	ctx := context.Background()
 	for b := 0; b < batches; b++ {
-		n := zz.AnyIntIn("batch", 0, 2)
+		n := zz.AnyIntIn("batch", 0, maxRows)
 		zz.Assert(c.Combine(ctx, fd.feed(n, "row")) == nil, "combining succeeds")
 	}
 	if len(zzCRuns) >= 1 {
